@@ -12,19 +12,19 @@ import "fmt"
 type RewriteKind int
 
 const (
-	R1ConstVar    RewriteKind = iota + 1 // constant operand <-> variable holding it / (0, c)
-	R2Capture                            // local <-> captured by an (uncalled) closure
-	R3Eval                               // if (false) eval("") / eval("") in the same or an inner function
-	R4With                               // wrap a region in with ({})
-	R5Arguments                          // mention `arguments`
-	R6ExprStmt                           // expression <-> statement position
-	R7Unreachable                        // unreachable code / value-preserving constant-condition wrappers
-	R8Wrap                               // block / labelled block / IIFE
-	R9ToString                           // function <-> eval("(" + f.toString() + ")")
-	R10LetVar                            // let <-> var
-	R11ForWhile                          // for <-> while
-	R12ParamPattern                      // (a) <-> ([a]) with wrapped argument
-	NumRewrites   = 12
+	R1ConstVar      RewriteKind = iota + 1 // constant operand <-> variable holding it / (0, c)
+	R2Capture                              // local <-> captured by an (uncalled) closure
+	R3Eval                                 // if (false) eval("") / eval("") in the same or an inner function
+	R4With                                 // wrap a region in with ({})
+	R5Arguments                            // mention `arguments`
+	R6ExprStmt                             // expression <-> statement position
+	R7Unreachable                          // unreachable code / value-preserving constant-condition wrappers
+	R8Wrap                                 // block / labelled block / IIFE
+	R9ToString                             // function <-> eval("(" + f.toString() + ")")
+	R10LetVar                              // let <-> var
+	R11ForWhile                            // for <-> while
+	R12ParamPattern                        // (a) <-> ([a]) with wrapped argument
+	NumRewrites     = 12
 )
 
 func (k RewriteKind) String() string { return fmt.Sprintf("R%d", int(k)) }
@@ -407,7 +407,9 @@ func (rw *Rewriter) r4(p *Node) string {
 // ---- R5: mention `arguments` in a function (the arguments object exists by the spec whether or not it is mentioned)
 
 func (rw *Rewriter) r5(p *Node) string {
-	sites := collectLists(p, func(s listSite) bool { return s.c.ThisFn != nil })
+	sites := collectLists(p, func(s listSite) bool {
+		return s.c.ThisFn != nil && !(AvoidStrictEvalArguments && s.c.StrictEvalArgs)
+	})
 	if len(sites) == 0 {
 		return ""
 	}
